@@ -301,3 +301,29 @@ Definition opt_eqb (a b : option Z) : bool :=
   match a, b with Some x, Some y => x =? y | None, None => true | _, _ => false end.
 Definition c10_guard (ts ends : list Z) (P : Z) (init : option Z) : bool :=
   opt_eqb (init_as_coded ts ends P init) init.
+
+(* ---------- the exact boundary of finding F14 ----------
+   situation: an initial value is given, no event at or before the start of dump 0, an event inside dump 0
+   (then the code drops the initial value); it matters only if the initial value would have won dump 0 *)
+Definition no_prior (ts : list Z) (lo : Z) : bool := negb (existsb (fun t => t <=? lo) ts).
+Definition in_first (ts : list Z) (lo hi : Z) : bool := existsb (fun t => (lo <? t) && (t <=? hi)) ts.
+Definition f14_situation (ts ends : list Z) (P : Z) (init : option Z) (greedy : list Z) : bool :=
+  match init, ends with
+  | Some i, e0 :: _ => memZ i greedy && no_prior ts (e0 - P) && in_first ts (e0 - P) e0
+  | _, _ => false
+  end.
+(* values of the events inside dump 0 *)
+Definition first_dump_values (ts vals ends : list Z) (P : Z) (tr : option (list (Z * Z))) : list Z :=
+  match ends with
+  | e0 :: _ => sel (fun t => (e0 - P <? t) && (t <=? e0)) (combine ts (map (app_tr tr) vals))
+  | [] => []
+  end.
+Definition f14_differs (ts vals ends : list Z) (P : Z) (tr : option (list (Z * Z))) (init : option Z)
+                       (greedy : list Z) : bool :=
+  match init, ends with
+  | Some i, e0 :: _ =>
+      let X := first_dump_values ts vals ends P tr in
+      let isg := fun v => memZ v greedy in
+      no_prior ts (e0 - P) && in_first ts (e0 - P) e0 && negb (pick isg (i :: X) =? pick isg X)
+  | _, _ => false
+  end.
